@@ -60,7 +60,7 @@ func init() {
 		Cases:       cases,
 		RunCase:     runCase,
 		MinEvals:    100,
-		CaseTimeout: 12 * time.Minute,
+		CaseTimeout: 20 * time.Minute, // the thorough tier's three big cases run one at a time (flock): the last one waits for the other two inside its own budget
 		Finish: func(run *vf.Run, results []*vf.Result, ev map[string]any) []vf.Violation {
 			if run.Tier == "thorough" {
 				ev["kill_point_selection"] = "every index 1..T of each scenario's count run (T = fs-mutating syscalls of the unkilled follower), plus seeded double kills"
